@@ -15,6 +15,15 @@ def main(argv):
     ap.add_argument("path", nargs="?")
     ap.add_argument("--tier", default=os.environ.get("VERIF_TIER", "quick"), choices=("quick", "thorough"))
     args = ap.parse_args(argv)
+    # overall watchdog: whatever happens, a check terminates (exit 2) instead of hanging
+    import signal
+
+    def _watchdog(signum, frame):
+        print("MACHINERY-ERROR: the check did not finish within its overall time limit")
+        os._exit(2)
+
+    signal.signal(signal.SIGALRM, _watchdog)
+    signal.alarm(int(os.environ.get("VERIF_CHECK_TIMEOUT", 2700 if args.tier == "quick" else 6 * 3600)))
     try:
         from . import props
 
